@@ -89,7 +89,7 @@ func checkC19Hybrid(sc *Scenario, st *Stats) (viol *Violation) {
 		for _, f := range fs {
 			for _, ar := range f.Aspects {
 				a := evs[ar.EnterEv].Aspect
-				out = append(out, evAspect{JP: jp, Addr: &a, GasIn: ar.GasIn, GasOut: ar.GasOut, Ret: evs[maxInt(ar.ExitEv, 0)].Output, Err: ar.Err})
+				out = append(out, evAspect{JP: jp, Addr: &a, SkipInput: true, GasIn: ar.GasIn, GasOut: ar.GasOut, Ret: evs[maxInt(ar.ExitEv, 0)].Output, Err: ar.Err})
 			}
 		}
 		return out
